@@ -79,7 +79,7 @@ func c07() *core.Check {
 		},
 		One: func(w *core.Worker, c core.Case) {
 			s := c.In
-			if len(s) > 1<<19 {
+			if len(s) > 1<<19 && c.Kind != "seam" {
 				return
 			}
 			w.Eval(1)
